@@ -160,8 +160,8 @@ Section Reset2.
   | XP_map s input op args kwargs : xarg s input -> Forall (xarg s) args -> Forall (fun ka => xarg s (snd ka)) kwargs ->
       xpat s (PMap input op args kwargs)
   | XP_indexof s a b : xarg s a -> xarg s b -> xpat s (PIndexOf a b)
-  | XP_arrayindex_list s l b : Forall (xarg s) l -> xarg s b -> xpat s (PArrayIndex (AL l) b)
-  | XP_arrayindex s a b : (forall l, a <> AL l) -> xarg s a -> xarg s b -> xpat s (PArrayIndex a b)
+  | XP_arrayindex_list s l b e : Forall (xarg s) l -> xarg s b -> xpat s (PArrayIndex (AL l) b e)
+  | XP_arrayindex s a b e : (forall l, a <> AL l) -> xarg s a -> xarg s b -> xpat s (PArrayIndex a b e)
   | XP_dict s kv : Forall (fun ka => xarg s (snd ka)) kv -> xpat s (PDict (AD kv))
   | XP_dictkey s a b : xarg s a -> xarg s b -> xpat s (PDictKey a b)
   with xarg : bool -> arg -> Prop :=
@@ -207,83 +207,6 @@ Section Reset2.
        end).
   Proof. reflexivity. Qed.
 
-  Lemma step_arrayindex_list_eq f l index :
-    step (S f) (PArrayIndex (AL l) index) =
-      (let '(oi, index') := value f index in
-       match oi with
-       | Yield VNone => (Yield VNone, PArrayIndex (AL l) index')
-       | Yield vi =>
-           match py_int vi with
-           | Yield (VInt i) =>
-               match py_index l i with
-               | None => (Raise IndexError, PArrayIndex (AL l) index')
-               | Some a =>
-                   let '(o, a') := value f a in
-                   (o, PArrayIndex (AL (update_nth (py_index_pos l i) a' l)) index')
-               end
-           | Yield _ => (Inexact, PArrayIndex (AL l) index')
-           | o => (o, PArrayIndex (AL l) index')
-           end
-       | _ => (oi, PArrayIndex (AL l) index')
-       end).
-  Proof. reflexivity. Qed.
-
-  Lemma step_arrayindex_gen f a b : (forall l, a <> AL l) ->
-    exists g, step (S f) (PArrayIndex a b) =
-      (let '(oa, a') := value f a in
-       match oa with
-       | Yield va => let '(ob, b') := value f b in (g va ob, PArrayIndex a' b')
-       | _ => (oa, PArrayIndex a' b)
-       end).
-  Proof.
-    intro Hn.
-    exists (fun vl oi => match oi with
-                  | Yield VNone => Yield VNone
-                  | Yield vi =>
-                      match py_int vi with
-                      | Yield (VInt i) =>
-                          match vl with
-                          | VList l | VTup l => match py_index l i with None => Raise IndexError | Some v => Yield v end
-                          | VStr _ | VDict _ => Inexact
-                          | _ => Raise TypeError
-                          end
-                      | Yield _ => Inexact
-                      | o => o
-                      end
-                  | _ => oi
-                  end).
-    assert (E : step (S f) (PArrayIndex a b) =
-      (let '(ol, list') := value f a in
-              match ol with
-              | Yield vl =>
-                  let '(oi, index') := value f b in
-                  match oi with
-                  | Yield VNone => (Yield VNone, PArrayIndex list' index')
-                  | Yield vi =>
-                      match py_int vi with
-                      | Yield (VInt i) =>
-                          match vl with
-                          | VList l | VTup l =>
-                              match py_index l i with
-                              | None => (Raise IndexError, PArrayIndex list' index')
-                              | Some v => (Yield v, PArrayIndex list' index')
-                              end
-                          | VStr _ | VDict _ => (Inexact, PArrayIndex list' index')
-                          | _ => (Raise TypeError, PArrayIndex list' index')
-                          end
-                      | Yield _ => (Inexact, PArrayIndex list' index')
-                      | o => (o, PArrayIndex list' index')
-                      end
-                  | _ => (oi, PArrayIndex list' index')
-                  end
-              | _ => (ol, PArrayIndex list' b)
-              end)) by (destruct a; try reflexivity; exfalso; eapply Hn; reflexivity).
-    rewrite E. clear E. destruct (value f a) as [oa a']. destruct oa; try reflexivity.
-    destruct (value f b) as [ob b']. destruct ob as [vb| | | |]; try reflexivity.
-    destruct vb; try reflexivity;
-      repeat match goal with |- context [match ?x with _ => _ end] => destruct x end; reflexivity.
-  Qed.
-
   Lemma step_dict_eq f kv :
     step (S f) (PDict (AD kv)) = (let '(o, kv') := kwvalues_of (value f) kv in (omap VDict o, PDict (AD kv'))).
   Proof. reflexivity. Qed.
@@ -324,7 +247,7 @@ Section Reset2.
   Proof. reflexivity. Qed.
   Lemma reset_indexof_eq f a b : reset (S f) (PIndexOf a b) = fld f a (fun a' => fld f b (fun b' => Yield (PIndexOf a' b'))).
   Proof. reflexivity. Qed.
-  Lemma reset_arrayindex_eq f a b : reset (S f) (PArrayIndex a b) = fld f a (fun a' => fld f b (fun b' => Yield (PArrayIndex a' b'))).
+  Lemma reset_arrayindex_eq f a b e : reset (S f) (PArrayIndex a b e) = fld f a (fun a' => fld f b (fun b' => Yield (PArrayIndex a' b' false))).
   Proof. reflexivity. Qed.
   Lemma reset_dict_eq f d : reset (S f) (PDict d) = fld f d (fun d' => Yield (PDict d')).
   Proof. reflexivity. Qed.
@@ -559,7 +482,8 @@ Section Reset2.
           destruct (plain_items ll) eqn:Pl; [rewrite (step_indexof_list_eq _ _ _ _ _ _ Pl)|rewrite step_indexof_list_none by exact Pl];
             xclosed_case IHs IHv IHn.
         * (* PArrayIndex over a literal list *)
-          rewrite step_arrayindex_list_eq. pose proof (IHv s b H0) as Kb. destruct (value f b) as [oi b']. cbn [snd] in Kb.
+          rewrite step_arrayindex_unfold. destruct e; [exact Hp|]. rewrite arrayindex_body_list_eq.
+          pose proof (IHv s b H0) as Kb. destruct (value f b) as [oi b']. cbn [snd] in Kb.
           destruct oi as [vi| | | |]; try (cbn [snd]; apply XP_arrayindex_list; assumption).
           destruct vi; try (cbn [snd]; apply XP_arrayindex_list; assumption).
           all: match goal with |- context [py_int ?v] => destruct (py_int v) as [[| |i| | | | |]| | | |] end;
@@ -568,7 +492,7 @@ Section Reset2.
           all: pose proof (IHv s x (py_index_Forall _ _ _ _ H Ei)) as Kx; destruct (value f x) as [o x']; cbn [snd] in Kx |- *.
           all: apply XP_arrayindex_list; [apply Forall_update_nth; assumption|assumption].
         * (* PArrayIndex *)
-          destruct (step_arrayindex_gen f a b H) as [g ->].
+          rewrite step_arrayindex_unfold. destruct e; [exact Hp|]. rewrite arrayindex_body_gen by exact H.
           pose proof (IHv s a H0) as Ka. destruct (value f a) as [oa a'] eqn:Ea. cbn [snd] in Ka.
           assert (Na : forall l, a' <> AL l).
           { intros l ->. destruct a as [v|p0|lt|ll|kv].
@@ -964,7 +888,8 @@ Section Reset2.
         destruct (plain_items ll) eqn:Pl; [rewrite (step_indexof_list_eq _ _ _ _ _ _ Pl)|rewrite step_indexof_list_none by exact Pl];
           a_case f0 HA reset_indexof_eq.
       + (* PArrayIndex over a literal list *)
-        rewrite step_arrayindex_list_eq. pose proof (fieldA_value f0 HA s f' b H0) as Ab. destruct (value f' b) as [oi b']. cbn [snd] in Ab.
+        rewrite step_arrayindex_unfold. destruct e; [reflexivity|]. rewrite arrayindex_body_list_eq.
+        pose proof (fieldA_value f0 HA s f' b H0) as Ab. destruct (value f' b) as [oi b']. cbn [snd] in Ab.
         destruct oi as [vi| | | |]; try (cbn [snd]; rewrite !reset_arrayindex_eq, Ab; reflexivity).
         destruct vi; try (cbn [snd]; rewrite !reset_arrayindex_eq, Ab; reflexivity).
         all: match goal with |- context [py_int ?v] => destruct (py_int v) as [[| |i| | | | |]| | | |] end;
@@ -973,7 +898,7 @@ Section Reset2.
         all: pose proof (itemA_value f0 HA s x f' (py_index_Forall _ _ _ _ H Ei)) as Ax; destruct (value f' x) as [o x']; cbn [snd] in Ax |- *.
         all: rewrite !reset_arrayindex_eq, (list_updateA f0 l i x x' Ei Ax), Ab; reflexivity.
       + (* PArrayIndex *)
-        destruct (step_arrayindex_gen f' a b H) as [g ->].
+        rewrite step_arrayindex_unfold. destruct e; [reflexivity|]. rewrite arrayindex_body_gen by exact H.
         pose proof (fieldA_value f0 HA s f' a H0) as Aa. destruct (value f' a) as [oa a']. cbn [snd] in Aa.
         destruct oa; try (cbn [snd]; rewrite !reset_arrayindex_eq, Aa; reflexivity).
         pose proof (fieldA_value f0 HA s f' b H1) as Ab. destruct (value f' b) as [ob b']. cbn [snd] in Ab |- *.
